@@ -126,5 +126,15 @@ def random_scenario(rng, allow_conn=True, allow_ctrl=True):
             op = rng.choice(["add", "add", "add", "del", "stop"])
             steps.append({"k": "conn", "op": op, "s": rng.randint(-1, nchan), "r": rng.randint(-1, nchan)})
         steps.append({"k": "block", "n": b})
+    # block time stamps: on the nominal grid, or off it (arrival jitter / a source clock that runs slow)
+    stamps = rng.choice(["nominal", "nominal", "jitter", "slow"])
+    drift = 0
+    for st in steps:
+        if st["k"] == "block":
+            if stamps == "jitter":
+                st["jit"] = rng.randint(-40, 40)
+            elif stamps == "slow":
+                drift += rng.randint(0, 3) * max(1, st["n"] // 8)
+                st["jit"] = drift
     return {"origin": "random", "nchan": nchan, "npre": npre, "nsamp": nsamp, "signed": signed, "period": rng.choice([100, 1000, 6400]),
             "frame0": rng.choice([0, 0, 1000, 1 << 40]), "start": start, "trig": trigs, "steps": steps, "data": data, "oneblock": False}
